@@ -378,6 +378,18 @@ func (g *Gen) havocTarget(env *Env, st *State, m Expr) error {
 	switch x := m.(type) {
 	case *Ident:
 		if gv, ok := g.W.C.Ghosts[x.Name]; ok {
+			if gv.T.Kind == "map" {
+				ks, vs, _, err := env.ghostMapSorts(gv)
+				if err != nil {
+					return err
+				}
+				srt := arrSort(ks, vs)
+				key := "G|" + gv.Name + "|"
+				g.compTerm(st, key, srt)
+				g.setComp(st, key, srt, g.fresh("G."+gv.Name, srt))
+				g.logWrite(key, "")
+				return nil
+			}
 			if gv.T.Kind == "set" {
 				et, err := g.W.lookupType(gv.T.Elem, gv.PkgPath)
 				if err != nil {
@@ -432,6 +444,21 @@ func (g *Gen) havocTarget(env *Env, st *State, m Expr) error {
 		g.havocLV(st, lv)
 		return nil
 	case *Index:
+		if id, ok := x.X.(*Ident); ok {
+			if gv, isG := g.W.C.Ghosts[id.Name]; isG && gv.T.Kind == "map" {
+				ks, vs, _, err := env.ghostMapSorts(gv)
+				if err != nil {
+					return err
+				}
+				srt := arrSort(ks, vs)
+				key := "G|" + gv.Name + "|"
+				cur := g.compTerm(st, key, srt)
+				k := env.eval(x.I).term()
+				g.setComp(st, key, srt, smtSto(cur, k, g.fresh("G."+gv.Name, vs)))
+				g.logWrite(key, k)
+				return nil
+			}
+		}
 		lv, err := env.evalLV(m)
 		if err != nil {
 			return err
